@@ -361,3 +361,8 @@ Qed.
 Lemma wf_iff_in_ranges asn4 m :
   wf asn4 m <-> in_ranges asn4 m /\ (u_nlri m = [] \/ u_attrs m <> []) /\ (u_attrs m <> [] \/ u_withdraw m <> []).
 Proof. unfold wf, in_ranges. tauto. Qed.
+
+Lemma prefix_addpath_roundtrip ps : Forall wf_apfx ps ->
+  construct_prefix_v4_ap ps = Ok (concat (map enc_aprefix ps)) /\
+  parse_prefix_list_ap (concat (map enc_aprefix ps)) = Ok ps.
+Proof. intros H. split; [exact (construct_prefix_v4_ap_ok ps H) | exact (parse_prefix_list_ap_enc ps H)]. Qed.
